@@ -429,17 +429,17 @@ Section OpSaveProofs.
   Variables (enc : str -> str) (dec : str -> option str).
   Variable render : fdoc -> str.
   Variable parse : str -> option fdoc.
+  Variable eqv : fdoc -> fdoc -> Prop.
   Variable chunking : str -> list str.
-  Hypothesis parse_render : forall d, parse (render d) = Some d.
   Hypothesis chunking_ok : forall x, concat (chunking x) = x.
 
   Lemma saves_spec st o :
     (saves st o = true -> exists d, st_file (fst (step enc dec st o)) = Some d) /\
     (saves st o = false -> fst (step enc dec st o) = st).
   Proof.
-    destruct o as [a|a c|a]; simpl.
+    destruct o as [a|a c|a|s']; simpl; [| | |split; [intros _; eexists; reflexivity|discriminate]].
     - split; [discriminate|reflexivity].
-    - destruct (contains colon (c_user c)); simpl; split; try discriminate; try reflexivity.
+    - destruct (put_accepts a c); simpl; split; try discriminate; try reflexivity.
       intros _. eexists. reflexivity.
     - destruct (lookup a (m_cache (st_mem st))); simpl; split; try discriminate; try reflexivity.
       intros _. eexists. reflexivity.
@@ -448,30 +448,39 @@ Section OpSaveProofs.
   Lemma cut_nil pre : crash_cut [] pre -> pre = [].
   Proof. inversion 1; reflexivity. Qed.
 
+  (* the only JSON fact used: the document this operation writes reads back as an
+     equivalent document *)
+  Definition reads_back (st : state) (o : op) : Prop :=
+    forall d, st_file (fst (step enc dec st o)) = Some d ->
+              exists d', parse (render d) = Some d' /\ eqv d' d.
+
   Lemma atomic_op (dir : list path) (p t : path) st o s pre :
     t <> p -> fget t s = None ->
-    disk_view parse p s = view_of (st_file st) ->
+    reads_back st o ->
+    disk_is parse eqv p s (st_file st) ->
     crash_cut (op_steps enc dec render chunking dir p t st o) pre ->
     let st' := fst (step enc dec st o) in
     let s' := exec_all s pre in
-    (disk_view parse p s' = view_of (st_file st) \/
-     disk_view parse p s' = view_of (st_file st') /\
+    (disk_is parse eqv p s' (st_file st) \/
+     disk_is parse eqv p s' (st_file st') /\
      (saves st o = true -> exists f, fget p s' = Some f /\ f_mode f = mode_file)) /\
-    (pre = op_steps enc dec render chunking dir p t st o -> disk_view parse p s' = view_of (st_file st')) /\
+    (pre = op_steps enc dec render chunking dir p t st o -> disk_is parse eqv p s' (st_file st')) /\
     (forall q, q <> p -> q <> t -> fget q s' = fget q s).
   Proof.
-    intros NE FR V C st' s'. unfold op_steps in *. subst st'.
+    intros NE FR RB V C st' s'. unfold op_steps in *. subst st'.
     destruct (saves_spec st o) as [SY SN].
     destruct (saves st o) eqn:SV.
-    - destruct (SY eq_refl) as [d ED]. rewrite ED in *.
+    - destruct (SY eq_refl) as [d ED]. destruct (RB d ED) as (d' & PR & EQ). rewrite ED in *.
+      assert (NEWV : forall s1, fget p s1 = Some {| f_data := concat (chunking (render d)); f_mode := mode_file |} ->
+                                disk_is parse eqv p s1 (Some d)).
+      { intros s1 E. exists {| f_data := concat (chunking (render d)); f_mode := mode_file |}, d'.
+        split; [exact E|]. cbn [f_data]. rewrite chunking_ok. split; assumption. }
       destruct (save_atomic dir p t (chunking (render d)) NE s pre FR C) as ([OLD|NEW] & OTH & _).
-      + split; [left; unfold disk_view, s'; now rewrite OLD|]. split; [|exact OTH].
+      + split; [left; unfold disk_is, s' in *; now rewrite OLD|]. split; [|exact OTH].
         intro E. subst pre.
         destruct (save_complete dir p t (chunking (render d)) NE s FR) as (P & _ & _).
-        unfold disk_view, s'. rewrite P. cbn [f_data]. now rewrite chunking_ok, parse_render.
-      + assert (VN : disk_view parse p s' = view_of (Some d)).
-        { unfold disk_view, s'. rewrite NEW. cbn [f_data]. now rewrite chunking_ok, parse_render. }
-        split; [right; split; [exact VN|]|split; [intros _; exact VN|exact OTH]].
+        apply NEWV. exact P.
+      + split; [right; split; [now apply NEWV|]|split; [intros _; now apply NEWV|exact OTH]].
         intros _. eexists. split; [exact NEW|reflexivity].
     - apply cut_nil in C. subst pre. unfold s'. rewrite (SN eq_refl).
       split; [left; exact V|]. split; [intros _; exact V|reflexivity].
